@@ -17,7 +17,8 @@ def showM (m : M) (from_ : Nat) : String :=
     | some bd => if scopeAlive m bd.innerScope then (if isLoading m (nb + 1) b then "1" else "0") else "x"
     | none => "?"
   let ps := (m.polls.drop from_).map fun (t, l) => s!"{t}.{l}"
-  s!"L={String.join ls} P=[{",".intercalate ps}]"
+  let g := if globalLoading m then "1" else "0"
+  s!"L={String.join ls} G={g} P=[{",".intercalate ps}]"
 
 def readEv (s : String) : Option Ev :=
   if s.startsWith "c" then (s.drop 1).toString.toNat?.map .complete
